@@ -22,6 +22,7 @@ EXPLANATION = (
     "it (relies on the '.' sentinel), for precisions up to 15.")
 
 RULES = {
+    "C15-N": "no integer on this property's data path is narrowed by an implicit conversion (parameter handed to a narrower parameter, stored in a narrower field, or a narrow field behind a wider accessor)",
     "C15-W": "every store / write call into a caller-supplied (or local) buffer is in bounds for every buffer length, on all paths",
     "C15-N": "on return: a NUL is known at the returned index whenever the result is shorter than the buffer",
 }
@@ -30,10 +31,53 @@ TARGETS = [("SCPI_NumberToStr", None, 5), ("SCPI_FloatToStr", None, 1), ("SCPI_D
            ("SCPI_ParamCopyText", None, 2), ("UInt32ToStrBaseSign", None, 3), ("UInt64ToStrBaseSign", None, 3)]
 
 
+def strnlen_contract(ck, prog, g):
+    """the bundled strnlen replacement is used under the contract `result <= maxlen, reads only s[0 .. maxlen-1]`
+    (spec/bounds.json); in builds that compile it the contract is verified on the function itself"""
+    from sa import bounds as B
+    from sa.linear import le
+    sp, mp = g.params[0]["name"], g.params[1]["name"]
+    an = B.Analysis(prog, g, {sp: mp}, BR.spec()["contracts"], loads=True)
+    orig = an.do_elem
+
+    def hook(st, n, orig=orig, an=an):
+        if n.k == "ReturnStmt" and n.ch:
+            v = an.value(st, n.child(0))
+            what = "the length returned does not exceed maxlen"
+            if v is None:
+                site = an.sites.setdefault(("ret", n.id), B.Site(n, "contract", what))
+                site.results.append((False, False, True, "returned value not expressible", None, None))
+            else:
+                an.oblige_fact(st, n, "contract", le(v, an.cur(st, mp)), what, key=("ret", n.id))
+        return orig(st, n)
+    an.do_elem = hook
+    sites = an.run()
+    ck.analysed(g)
+    k = 0
+    for s_ in sites.values():
+        v, r = s_.verdict()
+        st = K.site(g, "%s:%s" % (s_.kind, s_.node.src.replace(" ", "")[:30]), k)
+        k += 1
+        if v == "HOLDS":
+            ck.holds("C15-W", st, K.loc(g, s_.node), "%s (%d paths)" % (s_.what[:60], len(s_.results)))
+        elif v == "VIOLATED":
+            ck.violated("C15-W", st, K.loc(g, s_.node),
+                        "BSD_strnlen breaks its contract: %s; witness %s - callers size their writes with this value "
+                        "(SCPI_NumberToStr writes the terminator at str[strnlen(str, len - 1)])" % (r[3][:120], r[5]))
+        else:
+            ck.undecided("C15-W", st, K.loc(g, s_.node), "%s: %s" % (s_.what[:60], r[3][:160]))
+    if k == 0:
+        ck.anchor_lost("C15-W", "no obligations for BSD_strnlen")
+
+
 def run(ck, fb, tier):
     for cfg in fb.configs:
         ck.config = cfg
         prog = fb[cfg]
+        K.narrowing_rule(ck, prog, "C15-N", lambda f_: f_.name in ("UInt32ToStrBaseSign", "UInt64ToStrBaseSign", "SCPI_Int32ToStr", "SCPI_UInt32ToStrBase", "SCPI_Int64ToStr", "SCPI_UInt64ToStrBase", "SCPI_FloatToStr", "SCPI_DoubleToStr", "SCPI_dtostre", "scpi_ecvt", "SCPI_NumberToStr", "SCPI_ParamCopyText"))
+        g_ = prog.fn("BSD_strnlen")
+        if g_ is not None:
+            strnlen_contract(ck, prog, g_)
         for name, assume, floor in TARGETS:
             if cfg != "A" and tier != "thorough" and name not in ("SCPI_FloatToStr", "SCPI_DoubleToStr"):
                 continue
